@@ -66,6 +66,7 @@ type prover struct {
 	axioms      []fact                  // caller-supplied (class P parameter ranges etc.)
 	lenOf       map[ssa.Value]ssa.Value // canonical len-call value -> operand
 	constBounds bool                    // also check constant indices/bounds on input buffers (class K)
+	classV      bool                    // computed (non-length-field) bounds on received buffers: off — needs library axioms (bytes.Index) and type invariants (Hash.Length) the prover does not have
 	vn          map[ssa.Value]ssa.Value // value numbering: load of x.f -> first load of the same x.f (field never stored in fn)
 }
 
@@ -1394,9 +1395,11 @@ func (p *prover) CheckSinks(classP map[ssa.Value]bool) []boundVerdict {
 		switch s.Kind {
 		case "index":
 			why := p.risky(s.Idx, classP)
-			if why == "" && p.constBounds {
-				if _, isC := intConst(s.Idx); isC && inputContainer(s.Container) {
+			if why == "" && p.constBounds && inputContainer(s.Container) {
+				if _, isC := intConst(s.Idx); isC {
 					why = "K: constant index into a buffer received from outside"
+				} else if p.variableBound(s.Idx) {
+					why = "V: computed index into a buffer received from outside"
 				}
 			}
 			if why == "" {
@@ -1420,6 +1423,13 @@ func (p *prover) CheckSinks(classP map[ssa.Value]bool) []boundVerdict {
 					} else if c, _ := intConstOr(s.Lo); s.Lo != nil && c > 0 {
 						whyLo = "K: constant bound on a buffer received from outside"
 					}
+				}
+			}
+			if whyLo == "" && whyHi == "" && p.constBounds && inputContainer(s.Container) {
+				if p.variableBound(s.Hi) {
+					whyHi = "V: computed bound on a buffer received from outside"
+				} else if p.variableBound(s.Lo) {
+					whyLo = "V: computed bound on a buffer received from outside"
 				}
 			}
 			if whyLo == "" && whyHi == "" {
@@ -1737,4 +1747,23 @@ func (p *prover) UpperBounded(n ssa.Value, blk *ssa.BasicBlock) (bool, string) {
 		}
 	}
 	return false, ""
+}
+
+// variableBound: the bound is computed (not a constant, not a length, not a loop-carried cursor): e.g. the
+// Size() of a hash chosen by a byte of the input.
+func (p *prover) variableBound(v ssa.Value) bool {
+	if v == nil || !p.classV {
+		return false
+	}
+	t, _ := p.norm(v)
+	if t.v == nil || t.isLen {
+		return false
+	}
+	switch x := t.v.(type) {
+	case *ssa.Phi:
+		return !phiInCycle(x)
+	case *ssa.Call, *ssa.Extract, *ssa.BinOp, *ssa.Convert:
+		return true
+	}
+	return false
 }
